@@ -150,17 +150,18 @@ func simConn(input []byte) (*conn, *bytes.Buffer) {
 // ---- node ----
 
 type simNode struct {
-	r       *Raft
-	f       *follower
-	c       *candidate
-	l       *leader
-	fsm     *simFSM
-	dir     string
-	cur     State         // role whose init() ran last (the `state` variable of stateLoop)
-	abort   chan struct{} // closed to make parked dials fail
-	dead    bool
-	stopped bool // the node shut itself down (stateLoop returned)
-	snapReq *simSnapReq
+	r        *Raft
+	f        *follower
+	c        *candidate
+	l        *leader
+	fsm      *simFSM
+	dir      string
+	cur      State         // role whose init() ran last (the `state` variable of stateLoop)
+	abort    chan struct{} // closed to make parked dials fail
+	dead     bool
+	stopped  bool // the node shut itself down (stateLoop returned)
+	skipCase bool // the event just executed is outside the modelled fragment: no case is emitted for it
+	snapReq  *simSnapReq
 }
 
 var errSimAbort = errors.New("sim: dial aborted")
@@ -262,6 +263,17 @@ func (n *simNode) settle() {
 		// stateLoop returns: the deferred release of the current role, then Raft.release
 		n.stopped = true
 		n.releaseRole()
+		if n.r.snapTakenCh != nil {
+			// Raft.release waits for the snapshot in flight.  If the harness is holding the snapshot goroutine at
+			// its gate, let it go (it would run concurrently in the real process); the model has no event for
+			// "shutdown completes a pending snapshot", so this event is not compared (see simCluster.run)
+			n.skipCase = true
+			if q := n.snapReq; q != nil && !q.ran {
+				q.ran = true
+				close(q.gate)
+			}
+			n.snapReq = nil
+		}
 		n.r.release()
 		n.barrier()
 		return
